@@ -290,3 +290,9 @@ package tmmemstore
 //@       phs == nil && prevotes.BlockSignatures == nil && precommits.BlockSignatures == nil
 //@   ensures stored-votes-are-found: prevotes.BlockSignatures != nil || precommits.BlockSignatures != nil ==> err == nil
 //@   modifies nothing
+// The returned header list is the caller's own: it never shares its backing array with the store (a caller that sorts or
+// appends to it, or a later save, must not change what the store or an earlier caller holds).
+//@   ensures returned-header-list-is-private: phs != nil ==> fresh(phs)
+//@   loop 1 invariant collected-list-is-private: phs != nil && fresh(phs)
+//@   loop 2 invariant list-stays-private: phs != nil ==> fresh(phs)
+//@   loop 3 invariant list-stays-private: phs != nil ==> fresh(phs)
